@@ -31,7 +31,9 @@ fn wipe(p: &Path) {
 
 impl Sandbox {
     pub fn new(worker: u32) -> Sandbox {
-        let base = PathBuf::from(format!("{PREFIX}{}-{}", std::process::id(), worker));
+        // fixed-width so that absolute path lengths (and with them replays) do not depend on
+        // the number of digits of the process id
+        let base = PathBuf::from(format!("{PREFIX}{:07}-{:02}", std::process::id(), worker));
         wipe(&base);
         std::fs::create_dir(&base).expect("harness: create sandbox");
         let root = base.join("r");
